@@ -17,6 +17,11 @@ pub fn grammar() -> Grammar<E> {
         g.leaf(STMT, move || set(v, int(K)));
         g.leaf(STMT, move || print(&format!("<{}=~>", v), vec![var(v)]));
     }
+    // initialisers / assigned values that read a variable - including the one being declared
+    // (`let x = x + K` must read the OUTER x)
+    g.leaf(STMT, || let_("x", binop("+", var("x"), int(K))));
+    g.leaf(STMT, || let_("y", binop("+", var("x"), int(K))));
+    g.leaf(STMT, || set("x", binop("+", var("y"), int(K))));
     g.prod(STMT, &[SEQ], |mut k| k.pop().unwrap()); // begin .. end (SEQ is carried as a Block)
     for c in [true, false] {
         g.prod(STMT, &[STMT], move |mut k| if_(E::Bool(c), k.pop().unwrap(), None));
